@@ -46,6 +46,9 @@ FLAVOURS = {
     "miri-all": _fl("miri-all", ["cargo", "+nightly", "miri", "run", "--quiet", "--features", "extra", "--"], None),
     "miri-i686": _fl("miri", ["cargo", "+nightly", "miri", "run", "--quiet", "--target", "i686-unknown-linux-gnu", "--"], None),
     "miri-be": _fl("miri", ["cargo", "+nightly", "miri", "run", "--quiet", "--target", "powerpc64-unknown-linux-gnu", "--"], None),
+    # debug assertions off (release profile): the crate's debug_assert!s turn some misbehaviour into a panic, which hides what release builds do
+    "miri-rel": _fl("miri", ["cargo", "+nightly", "miri", "run", "--quiet", "--release", "--"], None),
+    "miri-i686-rel": _fl("miri", ["cargo", "+nightly", "miri", "run", "--quiet", "--release", "--target", "i686-unknown-linux-gnu", "--"], None),
     # 32-bit big-endian (the length/tag packing of the second word is endian-dependent)
     "miri-be32": _fl("miri", ["cargo", "+nightly", "miri", "run", "--quiet", "--target", "armeb-unknown-linux-gnueabi", "--"], None),
 }
